@@ -218,6 +218,37 @@ Section ConvP.
         * apply Hin. exact Hl.
   Qed.
 
+  (* ---- a source chunk that cannot be read makes the command fail ---- *)
+  Lemma convert_ok_reads_all_sec dst0 dst tr :
+    convert_chunks V f sbytes dbytes sdecode dencode sscales dscales src dst0 = Ok (dst, tr) ->
+    good dst0 ->
+    forall s cs c,
+    In s dscales -> In cs (sc_chunk_sizes s) -> In c (cgrid (sc_size s) cs) ->
+    exists ch, read_chunk (cchunk V) sbytes sdecode sscales src (sc_key s) c = Ok ch.
+  Proof.
+    rewrite convert_chunks_flat. intros H Hg0 s cs c Hs Hcs Hc.
+    destruct (fold_cstep_good _ _ _ _ _ H Hg0) as (Hgd & _ & Hin).
+    assert (present dst (sc_key s) c) as Hp.
+    { apply Hin. apply (in_all_chunks _ s cs c); [|assumption..].
+      apply in_rev. rewrite rev_involutive. exact Hs. }
+    unfold present in Hp.
+    destruct (lookup dbytes dst (sc_key s) c) as [b|] eqn:El; [|exfalso; apply Hp; reflexivity].
+    destruct (Hgd _ _ _ El) as (_ & ch & Hr & _). exists ch. exact Hr.
+  Qed.
+
+  Lemma convert_fails_on_unreadable_source_sec s cs c :
+    In s dscales -> In cs (sc_chunk_sizes s) -> In c (cgrid (sc_size s) cs) ->
+    ~ is_ok (read_chunk (cchunk V) sbytes sdecode sscales src (sc_key s) c) ->
+    ~ is_ok (convert_chunks V f sbytes dbytes sdecode dencode sscales dscales src []).
+  Proof.
+    intros Hs Hcs Hc Hbad Hok.
+    destruct (convert_chunks V f sbytes dbytes sdecode dencode sscales dscales src [])
+      as [[dst tr]| | | | | |cr] eqn:E; try exact Hok.
+    assert (good []) as Hg0 by (intros k' c' b' Hl; discriminate).
+    destruct (convert_ok_reads_all_sec [] dst tr E Hg0 s cs c Hs Hcs Hc) as [ch Hr].
+    apply Hbad. rewrite Hr. exact I.
+  Qed.
+
   Variable ddecode : list N -> dbytes -> triple -> outcome (cchunk V).
   Hypothesis d_roundtrip : forall k ch b, dencode k ch = Ok b -> ddecode k b (fst ch) = Ok ch.
   Hypothesis s_shape : forall k b e ch, sdecode k b e = Ok ch -> fst ch = e.
@@ -255,6 +286,15 @@ Section ConvP.
     unfold tmap. cbn [fst]. symmetry. apply (read_src_shape _ _ _ Hr).
   Qed.
 End ConvP.
+
+Lemma convert_fails_on_unreadable_source :
+  forall V f sbytes dbytes sdecode dencode sscales dscales src s cs c,
+  In s dscales -> In cs (sc_chunk_sizes s) -> In c (cgrid (sc_size s) cs) ->
+  ~ is_ok (read_chunk (cchunk V) sbytes sdecode sscales src (sc_key s) c) ->
+  ~ is_ok (convert_chunks V f sbytes dbytes sdecode dencode sscales dscales src []).
+Proof.
+  intros. eapply convert_fails_on_unreadable_source_sec; eassumption.
+Qed.
 
 Lemma source_never_written :
   forall V f sbytes dbytes sdecode dencode sscales dscales src dst0 dst tr,
